@@ -52,12 +52,12 @@ Section Cross.
       destruct ((negb lrel && isnone (ostep A (fst p) c')) || (negb rrel && isnone (ostep B (snd p) c'))) eqn:E;
         [destruct H|].
       destruct H as [H|[]]. inversion H; subst. split; [reflexivity|].
-      apply set_union_In in Hc'. rewrite <- !assoc_issome_key, !assoc_prow in Hc'.
+      apply (proj1 (set_of_In _ _)) in Hc'. apply in_app_or in Hc'. rewrite <- !assoc_issome_key, !assoc_prow in Hc'.
       unfold take, pstep, issome in *. simpl.
       destruct lrel, rrel, (ostep A (fst p) c), (ostep B (snd p) c); simpl in *;
         try reflexivity; try discriminate; destruct Hc'; discriminate.
     - intros [-> Ht]. exists c. rewrite !assoc_prow. unfold take, pstep, issome in *. simpl in *. split.
-      + apply set_union_In. rewrite <- !assoc_issome_key, !assoc_prow. unfold issome.
+      + apply (proj2 (set_of_In _ _)). apply in_or_app. rewrite <- !assoc_issome_key, !assoc_prow. unfold issome.
         destruct (ostep A (fst p) c), (ostep B (snd p) c); simpl in *; try (left; reflexivity);
           try (right; reflexivity). destruct lrel, rrel; discriminate.
       + destruct lrel, rrel, (ostep A (fst p) c), (ostep B (snd p) c); simpl in *;
